@@ -52,6 +52,7 @@ fn handle(toks: &[&str]) -> String {
         "walk" => l3::walk(&toks[1..]).unwrap_or_else(|| "bad-op".to_string()),
         "linkburst" => mitm::linkburst(&toks[1..]).unwrap_or_else(|| "bad-op".to_string()),
         "linkfinal" => mitm::linkfinal(&toks[1..]).unwrap_or_else(|| "bad-op".to_string()),
+        "wirenonces" => mitm::wirenonces(&toks[1..]).unwrap_or_else(|| "bad-op".to_string()),
         "rpd" => l1::rpd(&toks[1..]).unwrap_or_else(|| "bad-op".to_string()),
         _ => "bad-op".to_string(),
     }
